@@ -29,6 +29,7 @@ class Check(BaseCheck):
         n_tri, n_tet, size = (30, 8, "small") if self.quick else (600, 150, "large")
         corr_fem.run_stream(drv, stats, self.seed, n_tri, n_tet, size, fails, "fem correspondence (stiffness/mass vs model)",
                             dtypes=("f64", "f64", "f32"))
+        fails += corr_fem.huge_postconditions("stiffness", stats)
         # anisotropic branch of Solver.__init__: model fed with the curvature_tria output the implementation used
         for k, c in enumerate(corr_fem.aniso_meshes(self.seed, 6 if self.quick else 60)):
             lump = bool(k % 2)
@@ -93,6 +94,10 @@ class Check(BaseCheck):
         return None
 
     def oracle(self, case):
+        if case.get("input_class") == "huge":
+            for f in corr_fem.huge_postconditions("stiffness"):
+                return core.Violation("huge-mesh", f.detail + " (mesh generated by corr_fem.huge_meshes)", case)
+            return None
         if case.get("aniso") is not None:
             return self.aniso_oracle(case)
         kind = case["kind"]
